@@ -75,6 +75,12 @@ def build(variant, pkgs=("seq", "buf")):
         env = dict(ENV)
         env["RUSTFLAGS"] = "-Zsanitizer=address"
         cmd = ["cargo", "+nightly", "build", "--offline", "--profile", "vrelease", "--target", "x86_64-unknown-linux-gnu", "--features", "asan"]
+    elif variant == "knob":
+        # hook K1: MAX_VEC_POS = 61, so the 32-bit-only promote-to-shared branch of advance_unchecked runs
+        tdir = os.path.join(TARGET, "knob")
+        env = dict(ENV)
+        env["RUSTFLAGS"] = "--cfg tokio_rs_bytes_verif_vecpos"
+        cmd += ["--profile", "vdebug"]
     elif variant in ("vdebug", "vrelease"):
         cmd += ["--profile", variant]
     elif variant == "nostd":
@@ -123,6 +129,8 @@ def binpath(variant, name):
         return os.path.join(TARGET, "xplat", "vrelease", name)
     if variant == "asan":
         return os.path.join(TARGET, "asan", "x86_64-unknown-linux-gnu", "vrelease", name)
+    if variant == "knob":
+        return os.path.join(TARGET, "knob", "vdebug", name)
     raise HarnessError("unknown variant " + variant)
 
 
@@ -301,6 +309,25 @@ def write_json(path, obj):
 
 def replay_once(engine, variant, rec, scratch):
     """-> (kinds list, crashed bool, raw violations)"""
+    if engine == "miri-seq":
+        from . import props as P
+        m = rec.get("miri", {})
+        rc, out, err = P.miri_seq_run(m.get("args", []), m.get("seed", 0))
+        kinds, vs = [], []
+        for line in out.splitlines():
+            if line.startswith("{") and '"violation"' in line:
+                try:
+                    for v in json.loads(line).get("violations", []):
+                        kinds.append(v["kind"])
+                        vs.append(v)
+                except Exception:
+                    pass
+        if rc != 0 and not kinds:
+            cls = P.miri_classify(rc, "", err)
+            if cls:
+                kinds.append(cls[1])
+                vs.append({"props": cls[0], "kind": cls[1], "detail": cls[2], "step": 0})
+        return (kinds, False, vs)
     if engine == "miri":
         from . import props as P
         m = rec.get("miri", {})
@@ -548,9 +575,9 @@ def report_violation(prop, engine, variant, rec, viol, tier, do_min=True, list_k
     out["engine"] = engine
     out["violation"] = viol
     m = None
-    if engine == "miri":
+    if engine in ("miri", "miri-seq"):
         # Miri exports no schedule: the replay is (program, seed, flags); confirm it in a fresh process
-        kinds, _, vs = replay_once("miri", variant, rec, None)
+        kinds, _, vs = replay_once(engine, variant, rec, None)
         out["replay_confirmed_in_fresh_process"] = want in kinds
     elif do_min and engine == "sched":
         m = minimise_sched(variant, rec, want)
